@@ -321,10 +321,14 @@ class Scenario:
             b.imports = rnd.sample(self.comps, rnd.randint(0, 2))
             vis = self.visible_from(b.imports)
             self.make_types(b, vis, rnd.randint(0, 2), "b%d" % k)
-            # The order in which several bases are merged is not documented;
-            # top-level slots of a base use that base's own types only, so
-            # that slots of different bases never compete for a section.
-            b.items = self.make_items([True], list(b.types), 3,
+            # The order in which several bases are merged is not documented
+            # (the code merges them last-listed first).  Only one base of a
+            # scenario declares top-level section slots, and only over its
+            # own types, so that slots of different bases never compete for
+            # a section; keys cannot compete.
+            slot_types = list(b.types) if not any(
+                i.type for o in self.bases for i in o.items) else []
+            b.items = self.make_items([True], slot_types, 3,
                                       rnd.randint(0, 3))
             self.bases.append(b)
         main.extends = list(self.bases)
